@@ -610,4 +610,8 @@ def check(ctx, rep):
     rule_every_input_read(ctx, rep)
     rule_one_shot_iter(ctx, rep)
     rule_index_zero(ctx, rep)
+    from .c09 import rule_finding_owns_rule
+
+    # a finding's own identity (rule id, name, url) reaches the report unaltered by other findings / codemods
+    rule_finding_owns_rule(ctx, rep)
     rep.not_covered += ["equality of parsed findings with a reference extraction for arbitrary documents", "SARIF tool detection per run"]
